@@ -139,16 +139,24 @@ pub(super) fn derive_schema(input: TokenStream) -> syn::Result<TokenStream> {
                         continue
                     }
 
-                    let mut ident = f.ident.clone().unwrap(/* Named */);
+                    /* a property name is any string (e.g. `kebab-case`), not necessarily an identifier */
+                    let (mut name, mut name_span) = {
+                        let ident = f.ident.as_ref().unwrap(/* Named */);
+                        (ident.to_string(), ident.span())
+                    };
+                    /* `#[serde(rename_all_fields)]` of enum (serde accepts it on enums only) */
+                    if let Some((span, case)) = container_attrs.serde.rename_all_fields.value()? {
+                        (name, name_span) = (case.apply_to_field(&name), span);
+                    }
                     if let Some((span, case)) = container_attrs.serde.rename_all.value()? {
-                        ident = Ident::new(&case.apply_to_field(&ident.to_string()), span);
+                        (name, name_span) = (case.apply_to_field(&name), span);
                     }
                     if let Some((span, rename)) = field_attrs.serde.rename.value()? {
-                        ident = Ident::new(&rename, span);
+                        (name, name_span) = (rename.clone(), span);
                     }
 
                     if let Some(schema_with) = &field_attrs.openapi.schema_with {
-                        let property_name = LitStr::new(&ident.to_string(), ident.span());
+                        let property_name = LitStr::new(&name, name_span);
                         let schema_with = syn::parse_str::<Path>(schema_with)?;
                         properties.push(quote! {
                             schema = schema.property(#property_name, #schema_with());
@@ -197,7 +205,7 @@ pub(super) fn derive_schema(input: TokenStream) -> syn::Result<TokenStream> {
                             }
                         })
                     } else {
-                        let property_name = LitStr::new(&ident.to_string(), ident.span());
+                        let property_name = LitStr::new(&name, name_span);
 
                         properties.push(if is_optional_field {quote! {
                             schema = schema.optional(#property_name, #property_schema);
@@ -320,15 +328,15 @@ pub(super) fn derive_schema(input: TokenStream) -> syn::Result<TokenStream> {
                 variant_names.push({
                     let variant_attrs = VariantAttributes::new(&v.attrs)?;
                     
-                    let mut ident = v.ident.clone();
+                    let (mut name, mut name_span) = (v.ident.to_string(), v.ident.span());
                     if let Some((span, case)) = container_attrs.serde.rename_all.value()? {
-                        ident = Ident::new(&case.apply_to_variant(&ident.to_string()), span);
+                        (name, name_span) = (case.apply_to_variant(&name), span);
                     }
-                    if let Some((span, name)) = variant_attrs.serde.rename.value()? {
-                        ident = Ident::new(&*name, span);
+                    if let Some((span, rename)) = variant_attrs.serde.rename.value()? {
+                        (name, name_span) = (rename.clone(), span);
                     };
                     
-                    LitStr::new(&ident.to_string(), ident.span())
+                    LitStr::new(&name, name_span)
                 });
             }
             
@@ -340,7 +348,7 @@ pub(super) fn derive_schema(input: TokenStream) -> syn::Result<TokenStream> {
 
         } else {
             let mut variant_schemas = Vec::with_capacity(variants.len());
-            for mut v in variants {
+            for v in variants {
                 let variant_attrs = VariantAttributes::new(&v.attrs)?;
 
                 if variant_attrs.serde.skip
@@ -352,31 +360,15 @@ pub(super) fn derive_schema(input: TokenStream) -> syn::Result<TokenStream> {
                 }
 
                 let tag = {
-                    let mut ident = v.ident;
+                    let (mut name, mut name_span) = (v.ident.to_string(), v.ident.span());
                     if let Some((span, case)) = container_attrs.serde.rename_all.value()? {
-                        ident = Ident::new(&case.apply_to_variant(&ident.to_string()), span);
+                        (name, name_span) = (case.apply_to_variant(&name), span);
                     }
-                    if let Some((span, name)) = variant_attrs.serde.rename.value()? {
-                        ident = Ident::new(&*name, span);
+                    if let Some((span, rename)) = variant_attrs.serde.rename.value()? {
+                        (name, name_span) = (rename.clone(), span);
                     }
-                    LitStr::new(&ident.to_string(), ident.span())
+                    LitStr::new(&name, name_span)
                 };
-
-                /* preprocess `#[serde(rename_all_fields)]` of enum */
-                if let (
-                    Fields::Named(FieldsNamed { brace_token:_, named }),
-                    Some((span, case))
-                ) = (
-                    &mut v.fields,
-                    container_attrs.serde.rename_all_fields.value()?
-                ) {
-                    for f in named {
-                        f.ident = Some(Ident::new(
-                            &case.apply_to_field(&f.ident.as_ref().unwrap(/* Named */).to_string()),
-                            span
-                        ));
-                    }
-                }
 
                 let mut schema = if let Some(schema_with) = &variant_attrs.openapi.schema_with {
                     let schema_with = syn::parse_str::<Path>(schema_with)?;
